@@ -371,7 +371,7 @@ func (b *TermBank) Mod(x, y *Term) *Term {
 			}
 			if k >= 0 && v.Op != "int" {
 				vlo, vhi := b.Bounds(v)
-				if vlo != nil && vhi != nil && vlo.Sign() >= 0 && vhi.BitLen() <= 64 {
+				if vlo != nil && vhi != nil && vlo.Sign() >= 0 && vhi.BitLen() <= 64 && vhi.BitLen() > 16 {
 					t := b.App(fmt.Sprintf("byte!%d", k), SInt, v)
 					b.SetBounds(t, new(big.Int), big.NewInt(255))
 					return t
